@@ -27,7 +27,7 @@ theorem mirrorOf_spec (hide : Bool) (cap new : List Chunk) :
 theorem mainStep_mir_frame (s : S) :
     (mainStep s).mirOut = s.mirOut ∧ (mainStep s).mirErr = s.mirErr ∧ (mainStep s).hideOut = s.hideOut ∧
     (mainStep s).hideErr = s.hideErr := by
-  unfold mainStep nextJoin enterJoin afterJoins
+  unfold mainStep nextJoin enterJoin afterJoins leaveWait
   cases s.mainPc <;> simp only [] <;> (repeat' split) <;> simp_all
 
 theorem stdinStep_mir_frame (s : S) :
